@@ -1,2 +1,92 @@
-(* Spec/TrieSpec.v — specification-level definitions. *)
+(* Spec/TrieSpec.v — the set M of maximal sequences that property C15 says the
+   trie is, the reference semantics of Add / Delete / Has on M, and the
+   abstraction [members] from a trie to its set. *)
+From Coq Require Import String Sorting.Sorted.
 From Bio Require Import Base.
+From Bio.Model Require Import Trie.
+
+(* ---- prefixes -------------------------------------------------------------- *)
+Definition prefix (p x : bytes) : Prop := exists s, x = p ++ s.
+
+Fixpoint is_prefix (p x : bytes) : bool :=
+  match p, x with
+  | [], _ => true
+  | a :: p', b :: x' => (a =? b) && is_prefix p' x'
+  | _ :: _, [] => false
+  end.
+
+Definition proper_prefix (p x : bytes) : bool := is_prefix p x && negb (beqb p x).
+
+(* ---- the reference set ------------------------------------------------------ *)
+(* M is a list of byte strings read as a set (the theorems keep it duplicate free
+   and compare up to permutation). *)
+Definition mset_t := list bytes.
+
+(* Has(x): x is empty or a prefix of a member *)
+Definition spec_has (M : mset_t) (x : bytes) : bool :=
+  match x with [] => true | _ => existsb (is_prefix x) M end.
+
+(* Add(b): nothing for the empty sequence or a prefix of a member; otherwise b
+   enters and absorbs the members that are proper prefixes of it. *)
+Definition spec_add (b : bytes) (M : mset_t) : mset_t :=
+  match b with
+  | [] => M
+  | _ => if existsb (is_prefix b) M then M
+         else b :: filter (fun m => negb (proper_prefix m b)) M
+  end.
+
+(* Delete(b), b non-empty: every member with prefix b goes; the result says
+   whether there was one.  Delete of the empty sequence (outside the property
+   text's domain, but what the code does): nothing is removed, true. *)
+Definition spec_delete (b : bytes) (M : mset_t) : mset_t * bool :=
+  match b with
+  | [] => (M, true)
+  | _ => (filter (fun m => negb (is_prefix b m)) M, existsb (is_prefix b) M)
+  end.
+
+Definition spec_apply (o : op) (M : mset_t) : mset_t * option bool :=
+  match o with
+  | OAdd b => (spec_add b M, None)
+  | ODel b => let (M', r) := spec_delete b M in (M', Some r)
+  end.
+
+Fixpoint spec_run (ops : list op) (M : mset_t) : mset_t * list (option bool) :=
+  match ops with
+  | [] => (M, [])
+  | o :: r =>
+    let (M1, res) := spec_apply o M in
+    let (M2, rs) := spec_run r M1 in
+    (M2, res :: rs)
+  end.
+
+(* ---- abstraction ------------------------------------------------------------ *)
+(* The set a trie stands for: the root-to-leaf paths, a leaf being a childless
+   node other than the root. *)
+Fixpoint members (t : trie) : list bytes :=
+  match t with
+  | T l => flat_map (fun kc =>
+             match kc with
+             | (k, c) => match c with
+                         | T [] => [[k]]
+                         | _ => map (cons k) (members c)
+                         end
+             end) l
+  end.
+
+(* Well-formed: a node's keys are distinct (the model keeps them ascending: that
+   is what makes the list a canonical form of the Go map), recursively. *)
+Inductive wf : trie -> Prop :=
+| wf_T : forall l,
+    StronglySorted N.lt (map fst l) ->
+    (forall k c, In (k, c) l -> wf c) ->
+    wf (T l).
+
+(* every key is a byte (needed only where keys are written as decimal text) *)
+Inductive byte_keys : trie -> Prop :=
+| bk_T : forall l,
+    (forall k c, In (k, c) l -> k < 256 /\ byte_keys c) ->
+    byte_keys (T l).
+
+Definition op_bytes (o : op) : bytes := match o with OAdd b => b | ODel b => b end.
+Definition ops_are_bytes (ops : list op) : Prop :=
+  Forall (fun o => Forall (fun x => x < 256) (op_bytes o)) ops.
